@@ -32,16 +32,15 @@ fn outline_usize_from(a: RelocatedAddress) -> (r: usize)
 }
 
 //@ extract: impl Disassembler / fn disasm_function
-//@   fragment: `|brkpt| brkpt.addr >= fn_reloc_pc_start` .. `fn_reloc_pc_end)`
+//@   fragment: `^.filter(` .. `^) .for_each(`
 //@   splice: F_filter
 //@   rewrite W_clo: `|brkpt| brkpt.addr` => `brkpt.addr`
-//@   rewrite W_par: `fn_reloc_pc_end)` => `fn_reloc_pc_end`
 //@   rewrite W_a: `brkpt.addr` => `brkpt.addr.0`
 //@   rewrite W_s: `fn_reloc_pc_start` => `fn_reloc_pc_start.0`
 //@   rewrite W_e: `fn_reloc_pc_end` => `fn_reloc_pc_end.0`
 //@ end
 //@ extract: impl Disassembler / fn disasm_function
-//@   fragment: `let byte_idx = usize::from(brkpt.addr) - usize::from(fn_reloc_pc_start);` .. `text[byte_idx] = brkpt.saved_data.get();`
+//@   fragment: `^.for_each(|brkpt| {` .. `^});`
 //@   splice: F_body
 //@   outline O_from: `usize::from($a)` => `outline_usize_from($a)`
 //@   rewrite W_set: `text[byte_idx] = $v;` => `text.set(byte_idx, $v);`
